@@ -341,3 +341,38 @@ Print Assumptions constIndex_spec.
 Theorem cfold_sound : forall e g look, cfold e = Some (Some g) -> CompFacts.pevr look e = PV (VNum g).
 Proof. exact CompFacts.cfold_pevr. Qed.
 Print Assumptions cfold_sound.
+
+(* ---- frag_compile_correct, reference half (coq/CC/FragEvalFacts.v) ----
+   On the fragment the reference evaluator IS the direct semantics prun: for every fragment
+   program, every setting of the deviation switches (none is consulted on the fragment) and every
+   fuel above the explicit bound frag_fuel b, the run returns exactly prun's values, or fails with
+   the arithmetic fault positioned at the line of the faulting statement, or leaves the exact
+   arithmetic (Unsup 1: a % or ^ outside Lua/Num.v) exactly when prun says so; nothing is emitted;
+   prun is never stuck on the fragment. *)
+From GL Require CC.FragEvalFacts.
+
+Theorem frag_reference_run : forall b fuel d, in_frag b = true -> (FragEvalFacts.frag_fuel b <= fuel)%nat ->
+  match prun [] b with
+  | CRet vs => exists s', Run.run_program fuel d b = Run.FinOk vs s' /\ trace s' = [] /\ forallb is_simple vs = true
+  | CFault ln => exists s', Run.run_program fuel d b = Run.FinErr (VFault 2 ln) s' /\ trace s' = []
+  | CUnsup => Run.run_program fuel d b = Run.FinUnsup 1
+  | CStuck => False
+  end.
+Proof. exact FragEvalFacts.frag_run_lemma. Qed.
+Print Assumptions frag_reference_run.
+
+(* the same on observable outcomes, through the conversion cres_outcome both halves use *)
+Theorem frag_reference_is_prun : forall b fuel d, in_frag b = true -> (FragEvalFacts.frag_fuel b <= fuel)%nat ->
+  prun [] b <> CStuck /\
+  outcome_of (Run.run_program fuel d b) = FragEvalFacts.cres_outcome (prun [] b).
+Proof. exact FragEvalFacts.frag_reference_is_prun_lemma. Qed.
+Print Assumptions frag_reference_is_prun.
+
+(* the two proved halves glued: frag_compile_correct follows from the compiler's front half alone
+   (the code compileChunk emits, closed with the final RETURN, denotes prun and consists of 32-bit
+   words) — named partial: the front half itself is not yet proved *)
+From GL Require CC.FragGlue.
+
+Theorem frag_compile_correct_partial : FragGlue.front_half -> frag_compile_correct.
+Proof. exact FragGlue.frag_glue. Qed.
+Print Assumptions frag_compile_correct_partial.
